@@ -29,7 +29,7 @@ LEVEL_TEXT = ('Proof: (1) unbounded, by induction: for every nest of if / if-els
               'over the faithful model of JumpOpcode / condition_detect / break_detect / loop_detect, that EVERY skeleton with at most 2 compound constructs (bodies of one or two items) '
               'and every skeleton with at most 4 constructs (one-item bodies) decompiles to exactly the source nesting; the bound is in the theorem statement. '
               'The correspondence check ties the model to /repo on the same enumeration (and one size further in the thorough tier) plus random deep shapes.')
-LEVEL_NOTE = 'Until the repair ca070ba of /repo the full statement was refuted (four exit-repeat patterns, findings P1-P4, now fixed). Unbounded: if / if-else / repeat while / repeat with counting loops / exit repeat; repeat with ... in <list> is covered by the bounded theorem, the correspondence and the parser oracle.'
+LEVEL_NOTE = 'Until the repair ca070ba of /repo the full statement was refuted (four exit-repeat patterns, findings P1-P4, now fixed). Unbounded: if / if-else / repeat while / repeat with counting loops / exit repeat; repeat with ... in <list> is covered by the bounded theorem, the correspondence and the parser oracle. Spec tie: SpecFor.code2 / pp_q (the program and the text the theorems name) are extracted and compared with the harness compiler and the emitted text on every generated handler inside the fragment.'
 TECHNIQUE = 'Coq proof by induction (if / if-else / repeat while / repeat with nests with exit repeat, unbounded) and by kernel computation (vm_compute) over an exhaustive bounded enumeration (full construct set, exact iff-characterisation) + model/implementation correspondence'
 
 def gen_cases(rng, tier):
